@@ -1,7 +1,13 @@
 """Engine D: constant-propagating evaluator of the declarative catalogue
 (predefined.py, si_prefixes.py) with the *checker's own* semantics of what a
-declaration denotes.  Exact Fraction arithmetic; unknown statement forms are an
-AnalysisError naming the statement.  Nothing is imported from /repo."""
+declaration denotes.  The module-level code is folded over concrete values
+(exact numbers, text, lists, units, types) by a small evaluator of the Python
+subset a catalogue can reasonably be written in (literals, names, arithmetic,
+f-strings, comprehensions, tuple unpacking, loops, local helper functions);
+what `new_unit`, `derive_unit_from`, a class statement or a converter table
+*mean* is the checker's own reading, written below.  Exact Fraction arithmetic;
+unknown forms are an AnalysisError naming the statement.  Nothing is imported
+from /repo."""
 from __future__ import annotations
 
 import ast
@@ -35,6 +41,9 @@ class CType:
                 out[k] = out.get(k, 0) + v * e
         return {k: v for k, v in out.items() if v}
 
+    def __repr__(self):
+        return f"<CType {self.name}>"
+
 
 class CUnit:
     def __init__(self, ctype: CType, symbol, name, scale: Optional[Fraction], how, lineno, var=None,
@@ -56,6 +65,100 @@ class Prefix:
     def __init__(self, var, name, abbr, exp):
         self.var, self.name, self.abbr, self.exp = var, name, abbr, exp
 
+    def __repr__(self):
+        return f"<Prefix {self.name}>"
+
+
+class CQty:
+    """number * unit"""
+
+    def __init__(self, amount: Fraction, unit: CUnit):
+        self.amount, self.unit = amount, unit
+
+    def __repr__(self):
+        return f"<CQty {self.amount} {self.unit.symbol}>"
+
+
+class CTerm:
+    def __init__(self, items):
+        self.items = items          # [(CUnit | number, int)]
+
+
+class CClassTerm:
+    """Class algebra: ordered list of (type, exponent)."""
+
+    def __init__(self, items):
+        self.items = items
+
+
+class CFunc:
+    def __init__(self, node, env, name):
+        self.node, self.env, self.name = node, env, name
+
+
+class CBuiltin:
+    def __init__(self, name):
+        self.name = name
+
+    def __repr__(self):
+        return f"<builtin {self.name}>"
+
+
+class CBound:
+    def __init__(self, obj, attr):
+        self.obj, self.attr = obj, attr
+
+
+class CConverter:
+    def __init__(self, rows):
+        self.rows = rows
+
+
+class CModule:
+    def __init__(self, name):
+        self.name = name
+
+    def __repr__(self):
+        return f"<module {self.name}>"
+
+
+class XTree:
+    def __init__(self, tree):
+        self.tree = tree
+
+
+class XElem:
+    """An element of a data file of the repository, parsed by the checker's own XML reader."""
+
+    def __init__(self, el):
+        self.el = el
+
+
+class _PyRaise(Exception):
+    """A Python exception raised by the evaluated code."""
+
+    def __init__(self, name, msg=""):
+        self.name, self.msg = name, msg
+
+
+_EXC_PARENTS = {"KeyError": ("LookupError", "Exception"), "IndexError": ("LookupError", "Exception"),
+                "ValueError": ("Exception",), "TypeError": ("Exception",), "AttributeError": ("Exception",),
+                "ZeroDivisionError": ("ArithmeticError", "Exception"), "StopIteration": ("Exception",),
+                "AssertionError": ("Exception",), "LookupError": ("Exception",), "ArithmeticError": ("Exception",)}
+
+
+class _Return(Exception):
+    def __init__(self, v):
+        self.v = v
+
+
+class _Break(Exception):
+    pass
+
+
+class _Continue(Exception):
+    pass
+
 
 def term_symbol(items: List[Tuple[str, int]]) -> str:
     """Symbol of a product of unit symbols, in the documentation's convention."""
@@ -70,6 +173,22 @@ def term_symbol(items: List[Tuple[str, int]]) -> str:
     return p + ("/" + "·".join(neg) if neg else "")
 
 
+def _is_num(v) -> bool:
+    return isinstance(v, (int, Fraction, float)) and not isinstance(v, bool)
+
+
+def _exact(v) -> Fraction:
+    """Exact rational value of a number (a float stands for its binary value, as in Quantity(float))."""
+    return Fraction(v)
+
+
+_BUILTINS = ("Decimal", "Fraction", "Term", "TableConverter", "Quantity", "len", "range", "zip", "enumerate",
+             "str", "int", "tuple", "list", "dict", "sorted", "reversed", "isinstance", "sum", "min", "max",
+             "abs", "round", "repr", "float", "bool", "getattr", "print", "map", "filter", "any", "all", "set", "iter",
+             "List", "Tuple", "Dict", "Optional", "Union", "MutableMapping", "Mapping", "Sequence", "Iterable",
+             "Iterator", "Callable", "Any", "Element")
+
+
 class Catalogue:
     def __init__(self, prog: Program):
         self.prog = prog
@@ -77,100 +196,281 @@ class Catalogue:
         self.types: Dict[str, CType] = {}
         self.env: Dict[str, object] = {}
         self.units: List[CUnit] = []
-        self.temp_rows: List[tuple] = []
         self.statements = 0
         self.doc = ""
+        self.file = "predefined.py"
+        self.cur = None
+        self.prefix_factor_ok: Optional[bool] = None
+        self.prefix_factor_detail = ""
         self._eval_prefixes()
         self._eval_predefined()
+
+    # ------------------------------------------------------------ errors
+    def err(self, what, node=None):
+        ln = getattr(node, "lineno", None) or getattr(self.cur, "lineno", "?")
+        raise AnalysisError(f"{self.file}:{ln}: {what}")
 
     # ------------------------------------------------------------ prefixes
     def _eval_prefixes(self):
         m = self.prog.modules.get("quantity.si_prefixes")
         if m is None:
             raise AnalysisError("module si_prefixes missing")
+        self.file = "si_prefixes.py"
+        env: Dict[str, object] = {}
+        self.prefix_class = None
         for st in m.tree.body:
-            if isinstance(st, ast.Assign) and len(st.targets) == 1 and isinstance(st.targets[0], ast.Name) \
-                    and isinstance(st.value, ast.Call) and src_of(st.value.func) == "SIPrefix":
-                args = [self._const(a, st) for a in st.value.args]
-                kw = {k.arg: self._const(k.value, st) for k in st.value.keywords}
-                name = args[0] if len(args) > 0 else kw.get("name")
-                abbr = args[1] if len(args) > 1 else kw.get("abbr")
-                exp = args[2] if len(args) > 2 else kw.get("exp")
-                if not isinstance(exp, Fraction) or exp.denominator != 1:
-                    raise AnalysisError(f"si_prefixes.py:{st.lineno}: exponent is not an integer literal")
-                self.prefixes[st.targets[0].id] = Prefix(st.targets[0].id, name, abbr, int(exp))
+            self.cur = st
+            if isinstance(st, (ast.Import, ast.ImportFrom)):
+                for a in st.names:
+                    nm = a.asname or a.name
+                    if nm in _BUILTINS:
+                        env[nm] = CBuiltin(nm)
+                continue
+            if isinstance(st, ast.Expr) and isinstance(st.value, ast.Constant):
+                continue
+            if isinstance(st, ast.ClassDef):
+                if st.name == "SIPrefix":
+                    self.prefix_class = st
+                    env[st.name] = CBuiltin("SIPrefix")
+                continue
+            self._exec(st, env, top=True)
+        for k, v in env.items():
+            if isinstance(v, Prefix):
+                if v.var is None:
+                    v.var = k
+                self.prefixes[k] = v
+        for k, v in self.prefixes.items():
+            if not isinstance(v.exp, int) or isinstance(v.exp, bool):
+                raise AnalysisError(f"si_prefixes.py: exponent of {k} is not an integer")
+        # what SIPrefix.factor computes, evaluated for every prefix (the checker's reading: 10 ** exp)
+        self._check_prefix_factor(env)
 
-    def _const(self, n, st):
-        if isinstance(n, ast.Constant):
-            if isinstance(n.value, bool):
-                return n.value
-            if isinstance(n.value, int):
-                return Fraction(n.value)
-            return n.value
-        if isinstance(n, ast.UnaryOp) and isinstance(n.op, ast.USub):
-            v = self._const(n.operand, st)
-            if isinstance(v, Fraction):
-                return -v
-        raise AnalysisError(f"{getattr(st, 'lineno', '?')}: not a literal: {src_of(n)}")
+    def _check_prefix_factor(self, env):
+        cd = self.prefix_class
+        if cd is None:
+            return
+        fac = None
+        for s in cd.body:
+            if isinstance(s, ast.FunctionDef) and s.name == "factor":
+                fac = s
+        if fac is None:
+            self.prefix_factor_ok, self.prefix_factor_detail = False, "SIPrefix has no factor"
+            return
+        fenv = dict(env)
+        for nm in ("Decimal", "Fraction"):
+            fenv.setdefault(nm, CBuiltin(nm))
+        bad = []
+        for p in self.prefixes.values():
+            try:
+                v = self._call_func(CFunc(fac, fenv, "SIPrefix.factor"), [p], {})
+            except AnalysisError as e:
+                self.prefix_factor_ok, self.prefix_factor_detail = None, str(e)
+                return
+            if not _is_num(v) or isinstance(v, float) or _exact(v) != Fraction(10) ** p.exp:
+                bad.append(f"{p.name}: factor {v!r}, 10^{p.exp}")
+        self.prefix_factor_ok = not bad
+        self.prefix_factor_detail = "; ".join(bad[:3])
 
     # ------------------------------------------------------------ predefined
     def _eval_predefined(self):
         m = self.prog.modules["quantity.predefined"]
         self.module = m
+        self.file = "predefined.py"
         self.doc = ast.get_docstring(m.tree, clean=False) or ""
         for name, (mod, nm) in m.imports.items():
             if mod == "quantity.si_prefixes":
                 if nm not in self.prefixes:
                     raise AnalysisError(f"predefined.py imports unknown prefix {nm}")
                 self.env[name] = self.prefixes[nm]
+            elif nm in _BUILTINS or name in _BUILTINS:
+                self.env[name] = CBuiltin(nm if nm in _BUILTINS else name)
         for st in m.tree.body:
-            self._stmt(st)
+            self.statements += 1
+            self.cur = st
+            try:
+                self._exec(st, self.env, top=True)
+            except _PyRaise as ex:
+                self.err(f"the statement raises {ex.name}: {ex.msg}", st)
 
-    def _stmt(self, st):
-        self.statements += 1
+    # ------------------------------------------------------------ statements
+    def _exec_block(self, body, env):
+        for st in body:
+            self._exec(st, env)
+
+    def _exec(self, st, env, top=False):
         if isinstance(st, (ast.Import, ast.ImportFrom)):
+            if getattr(self, "bind_imports", False):
+                for a in st.names:
+                    nm = a.asname or a.name.split(".")[0]
+                    full = a.name if isinstance(st, ast.Import) else f"{st.module}.{a.name}"
+                    if isinstance(st, ast.Import) and a.asname is None:
+                        full = a.name.split(".")[0]
+                    env[nm] = CBuiltin(nm) if nm in _BUILTINS else CModule(full)
             return
-        if isinstance(st, ast.Expr) and isinstance(st.value, ast.Constant):
+        if isinstance(st, (ast.Pass, ast.Global)):
+            return
+        if isinstance(st, ast.Try):
+            try:
+                try:
+                    self._exec_block(st.body, env)
+                except _PyRaise as ex:
+                    for h in st.handlers:
+                        names = []
+                        if h.type is not None:
+                            names = [src_of(e).split(".")[-1] for e in
+                                     (h.type.elts if isinstance(h.type, ast.Tuple) else [h.type])]
+                        if h.type is None or ex.name in names or any(p in names for p in _EXC_PARENTS.get(ex.name, ("Exception",))):
+                            if h.name:
+                                env[h.name] = ex
+                            self._exec_block(h.body, env)
+                            break
+                    else:
+                        raise
+                else:
+                    self._exec_block(st.orelse, env)
+            finally:
+                self._exec_block(st.finalbody, env)
+            return
+        if isinstance(st, ast.Raise):
+            if st.exc is None:
+                self.err("bare raise", st)
+            tgt = st.exc.func if isinstance(st.exc, ast.Call) else st.exc
+            msg = ""
+            if isinstance(st.exc, ast.Call) and st.exc.args:
+                try:
+                    msg = self._text(self._eval(st.exc.args[0], env))
+                except AnalysisError:
+                    msg = ""
+            raise _PyRaise(src_of(tgt).split(".")[-1], msg)
+        if isinstance(st, ast.Expr):
+            if isinstance(st.value, ast.Constant):
+                return
+            self._eval(st.value, env)
             return
         if isinstance(st, ast.ClassDef):
-            return self._class(st)
+            if top and env is self.env:
+                return self._class(st, env)
+            self.err(f"class statement outside the module level: {st.name}", st)
         if isinstance(st, ast.Assert):
             return
-        if isinstance(st, ast.Assign) and len(st.targets) == 1 and isinstance(st.targets[0], ast.Name):
-            tgt = st.targets[0].id
-            if tgt == "__all__":
-                return
-            v = self._value(st.value, st, tgt)
-            self.env[tgt] = v
-            if isinstance(v, CUnit) and v.var is None:
-                v.var = tgt
+        if isinstance(st, ast.FunctionDef):
+            env[st.name] = CFunc(st, env, st.name)
             return
-        if isinstance(st, ast.Expr) and isinstance(st.value, ast.Call):
-            f = st.value.func
-            if isinstance(f, ast.Attribute) and f.attr == "register_converter":
-                t = self.env.get(src_of(f.value))
-                if not isinstance(t, CType):
-                    raise AnalysisError(f"predefined.py:{st.lineno}: register_converter on unknown type")
-                arg = st.value.args[0]
-                if isinstance(arg, ast.Call) and src_of(arg.func) == "TableConverter":
-                    tbl = self._value(arg.args[0], st, None)
-                    t.converters.append(tbl)
-                    return
-        raise AnalysisError(f"predefined.py:{st.lineno}: statement form outside the catalogue language: "
-                            f"{src_of(st)[:100]}")
+        if isinstance(st, ast.Assign):
+            v = self._eval(st.value, env)
+            for t in st.targets:
+                self._assign(t, v, env)
+            return
+        if isinstance(st, ast.AnnAssign):
+            if st.value is not None:
+                self._assign(st.target, self._eval(st.value, env), env)
+            return
+        if isinstance(st, ast.AugAssign):
+            cur = self._eval(st.target, env)
+            v = self._binop(st.op, cur, self._eval(st.value, env), st)
+            self._assign(st.target, v, env)
+            return
+        if isinstance(st, ast.For):
+            for x in self._iter(self._eval(st.iter, env), st):
+                self._assign(st.target, x, env)
+                try:
+                    self._exec_block(st.body, env)
+                except _Break:
+                    break
+                except _Continue:
+                    continue
+            else:
+                self._exec_block(st.orelse, env)
+            return
+        if isinstance(st, ast.If):
+            if isinstance(st.test, ast.Name) and st.test.id == "TYPE_CHECKING":
+                return self._exec_block(st.orelse, env)
+            if self._truth(self._eval(st.test, env)):
+                self._exec_block(st.body, env)
+            else:
+                self._exec_block(st.orelse, env)
+            return
+        if isinstance(st, ast.Return):
+            raise _Return(self._eval(st.value, env) if st.value is not None else None)
+        if isinstance(st, ast.Break):
+            raise _Break()
+        if isinstance(st, ast.Continue):
+            raise _Continue()
+        if isinstance(st, ast.Delete):
+            for t in st.targets:
+                if isinstance(t, ast.Name):
+                    env.pop(t.id, None)
+                else:
+                    self.err(f"statement form outside the catalogue language: {src_of(st)[:100]}", st)
+            return
+        self.err(f"statement form outside the catalogue language: {src_of(st)[:100]}", st)
 
-    def _class(self, st: ast.ClassDef):
+    def _assign(self, target, v, env):
+        if isinstance(target, ast.Name):
+            if target.id == "__all__":
+                return
+            env[target.id] = v
+            if env is self.env:
+                if isinstance(v, CUnit) and v.var is None:
+                    v.var = target.id
+                if isinstance(v, Prefix) and v.var is None:
+                    v.var = target.id
+            return
+        if isinstance(target, (ast.Tuple, ast.List)):
+            seq = list(self._iter(v, target))
+            star = [i for i, e in enumerate(target.elts) if isinstance(e, ast.Starred)]
+            if star:
+                i = star[0]
+                na = len(target.elts) - i - 1
+                if len(seq) < len(target.elts) - 1:
+                    self.err("not enough values to unpack", target)
+                for t, x in zip(target.elts[:i], seq[:i]):
+                    self._assign(t, x, env)
+                self._assign(target.elts[i].value, list(seq[i:len(seq) - na]), env)
+                for t, x in zip(target.elts[i + 1:], seq[len(seq) - na:]):
+                    self._assign(t, x, env)
+                return
+            if len(seq) != len(target.elts):
+                self.err(f"unpacking {len(seq)} values into {len(target.elts)} names", target)
+            for t, x in zip(target.elts, seq):
+                self._assign(t, x, env)
+            return
+        if isinstance(target, ast.Subscript):
+            obj = self._eval(target.value, env)
+            key = self._eval(target.slice, env)
+            if isinstance(obj, (list, dict)):
+                obj[self._key(key)] = v
+                return
+        self.err(f"assignment target outside the catalogue language: {src_of(target)[:80]}", target)
+
+    @staticmethod
+    def _key(k):
+        if isinstance(k, Fraction) and k.denominator == 1:
+            return int(k)
+        return k
+
+    # ------------------------------------------------------------ class statements
+    def _class(self, st: ast.ClassDef, env):
         bases = [src_of(b) for b in st.bases]
         if "Quantity" not in bases:
             raise AnalysisError(f"predefined.py:{st.lineno}: class {st.name} is not a Quantity subclass")
-        kw = {k.arg: k.value for k in st.keywords}
+        kw = {k.arg: self._eval(k.value, env) for k in st.keywords if k.arg != "metaclass"}
         definition = None
         if "define_as" in kw:
-            definition = self._clsdef(kw["define_as"], st)
-        ref_symbol = self._const(kw["ref_unit_symbol"], st) if "ref_unit_symbol" in kw else None
-        ref_name = self._const(kw["ref_unit_name"], st) if "ref_unit_name" in kw else None
-        quantum = self._number(kw["quantum"], st) if "quantum" in kw else None
-        unknown = set(kw) - {"define_as", "ref_unit_symbol", "ref_unit_name", "quantum", "metaclass"}
+            d = kw["define_as"]
+            if isinstance(d, CType):
+                d = CClassTerm([(d, 1)])
+            if not isinstance(d, CClassTerm):
+                raise AnalysisError(f"predefined.py:{st.lineno}: define_as form outside the class algebra: {d!r}")
+            definition = list(d.items)
+        ref_symbol = kw.get("ref_unit_symbol")
+        ref_name = kw.get("ref_unit_name")
+        quantum = kw.get("quantum")
+        if quantum is not None:
+            if not _is_num(quantum):
+                raise AnalysisError(f"predefined.py:{st.lineno}: quantum is not a number")
+            quantum = _exact(quantum)
+        unknown = set(kw) - {"define_as", "ref_unit_symbol", "ref_unit_name", "quantum"}
         if unknown:
             raise AnalysisError(f"predefined.py:{st.lineno}: unknown class keywords {unknown}")
         t = CType(st.name, definition, ref_symbol, ref_name, quantum, st.lineno)
@@ -192,27 +492,7 @@ class Catalogue:
             t.units.append(u)
             self.units.append(u)
         self.types[st.name] = t
-        self.env[st.name] = t
-
-    def _clsdef(self, n, st) -> List[Tuple[CType, int]]:
-        """Class algebra: T, T ** k, a * b, a / b -> ordered list of (type, exponent)."""
-        if isinstance(n, ast.Name):
-            t = self.env.get(n.id)
-            if not isinstance(t, CType):
-                raise AnalysisError(f"predefined.py:{st.lineno}: unknown type {n.id} in define_as")
-            return [(t, 1)]
-        if isinstance(n, ast.BinOp):
-            if isinstance(n.op, ast.Pow):
-                base = self._clsdef(n.left, st)
-                k = self._number(n.right, st)
-                if k.denominator != 1:
-                    raise AnalysisError(f"predefined.py:{st.lineno}: non-integer exponent")
-                return [(t, e * int(k)) for t, e in base]
-            if isinstance(n.op, ast.Mult):
-                return self._merge(self._clsdef(n.left, st) + self._clsdef(n.right, st))
-            if isinstance(n.op, ast.Div):
-                return self._merge(self._clsdef(n.left, st) + [(t, -e) for t, e in self._clsdef(n.right, st)])
-        raise AnalysisError(f"predefined.py:{st.lineno}: define_as form outside the class algebra: {src_of(n)}")
+        env[st.name] = t
 
     @staticmethod
     def _merge(items):
@@ -226,168 +506,763 @@ class Catalogue:
                 out.append((t, e))
         return [(t, e) for t, e in out if e]
 
-    def _number(self, n, st) -> Fraction:
-        if isinstance(n, ast.Constant) and isinstance(n.value, int) and not isinstance(n.value, bool):
-            return Fraction(n.value)
-        if isinstance(n, ast.UnaryOp) and isinstance(n.op, ast.USub):
-            return -self._number(n.operand, st)
-        if isinstance(n, ast.Call):
-            f = src_of(n.func)
-            if f == "Decimal" and len(n.args) == 1:
-                a = n.args[0]
-                if isinstance(a, ast.Constant) and isinstance(a.value, str):
-                    return Fraction(a.value)
-                return self._number(a, st)
-            if f == "Fraction":
-                if len(n.args) == 2:
-                    return self._number(n.args[0], st) / self._number(n.args[1], st)
-                if len(n.args) == 1:
-                    a = n.args[0]
-                    if isinstance(a, ast.Constant) and isinstance(a.value, str):
-                        return Fraction(a.value)
-                    return self._number(a, st)
-        if isinstance(n, ast.BinOp):
-            l, r = self._number(n.left, st), self._number(n.right, st)
-            if isinstance(n.op, ast.Mult):
-                return l * r
-            if isinstance(n.op, ast.Div):
-                return l / r
-            if isinstance(n.op, ast.Add):
-                return l + r
-            if isinstance(n.op, ast.Sub):
-                return l - r
-            if isinstance(n.op, ast.Pow):
-                if r.denominator != 1:
-                    raise AnalysisError(f"predefined.py:{st.lineno}: non-integer power")
-                return l ** int(r)
-        if isinstance(n, ast.Name):
-            v = self.env.get(n.id)
-            if isinstance(v, Fraction):
-                return v
-            if isinstance(v, Prefix):
-                return Fraction(10) ** v.exp
-        raise AnalysisError(f"predefined.py:{getattr(st, 'lineno', '?')}: not a numeric constant: {src_of(n)}")
+    # ------------------------------------------------------------ expressions
+    def _truth(self, v) -> bool:
+        if isinstance(v, (CType, CUnit, Prefix, CQty, CFunc, CBuiltin, CBound, CConverter)):
+            return True
+        return bool(v)
 
-    def _scaled(self, n, st) -> Tuple[Fraction, CUnit]:
-        """<number | prefix> * UNIT  ->  (factor, unit)"""
-        if isinstance(n, ast.BinOp) and isinstance(n.op, ast.Mult):
-            for a, b in ((n.left, n.right), (n.right, n.left)):
-                u = self._unit_ref(b)
-                if u is not None:
-                    if isinstance(a, ast.Name) and isinstance(self.env.get(a.id), Prefix):
-                        return Fraction(10) ** self.env[a.id].exp, u
-                    return self._number(a, st), u
-            # (number * number) * UNIT parsed left-assoc: number ** k * UNIT is BinOp(BinOp(pow), *, UNIT): handled above
-        raise AnalysisError(f"predefined.py:{st.lineno}: definition is not <number> * <unit>: {src_of(n)}")
+    def _iter(self, v, node):
+        if isinstance(v, (list, tuple, str, range, dict)):
+            return list(v)
+        if isinstance(v, CTerm):
+            return [tuple(it) for it in v.items]
+        if isinstance(v, XElem):
+            return [XElem(c) for c in list(v.el)]
+        self.err(f"iteration over {v!r}", node)
 
-    def _unit_ref(self, n) -> Optional[CUnit]:
-        if isinstance(n, ast.Name) and isinstance(self.env.get(n.id), CUnit):
+    def _eval(self, n, env):
+        m = getattr(self, "_e_" + type(n).__name__, None)
+        if m is None:
+            self.err(f"value form outside the catalogue language: {src_of(n)[:100]}", n)
+        return m(n, env)
+
+    def _e_Constant(self, n, env):
+        return n.value
+
+    def _e_Name(self, n, env):
+        e = env
+        while e is not None:
+            if n.id in e:
+                return e[n.id]
+            e = e.get("__parent__") if isinstance(e, dict) else None
+        if n.id in self.env:
             return self.env[n.id]
+        if n.id in _BUILTINS:
+            return CBuiltin(n.id)
+        if n.id in ("True", "False", "None"):
+            return {"True": True, "False": False, "None": None}[n.id]
+        self.err(f"unknown name {n.id}", n)
+
+    def _e_Tuple(self, n, env):
+        return tuple(self._elts(n.elts, env))
+
+    def _e_List(self, n, env):
+        return list(self._elts(n.elts, env))
+
+    def _e_Set(self, n, env):
+        return list(self._elts(n.elts, env))
+
+    def _elts(self, elts, env):
+        out = []
+        for e in elts:
+            if isinstance(e, ast.Starred):
+                out.extend(self._iter(self._eval(e.value, env), e))
+            else:
+                out.append(self._eval(e, env))
+        return out
+
+    def _e_Dict(self, n, env):
+        out = {}
+        for k, v in zip(n.keys, n.values):
+            if k is None:
+                out.update(self._eval(v, env))
+            else:
+                out[self._key(self._eval(k, env))] = self._eval(v, env)
+        return out
+
+    def _e_UnaryOp(self, n, env):
+        v = self._eval(n.operand, env)
+        if isinstance(n.op, ast.Not):
+            return not self._truth(v)
+        if _is_num(v):
+            if isinstance(n.op, ast.USub):
+                return -v
+            if isinstance(n.op, ast.UAdd):
+                return v
+        if isinstance(v, CQty) and isinstance(n.op, ast.USub):
+            return CQty(-v.amount, v.unit)
+        self.err(f"unary operation on {v!r}", n)
+
+    def _e_BinOp(self, n, env):
+        return self._binop(n.op, self._eval(n.left, env), self._eval(n.right, env), n)
+
+    def _num_binop(self, op, l, r, node):
+        # Python's own arithmetic; a Fraction stands for an exact Decimal/Fraction, mixed with a float it stays exact
+        if isinstance(l, Fraction) and isinstance(r, float):
+            r = Fraction(r)
+        if isinstance(r, Fraction) and isinstance(l, float):
+            l = Fraction(l)
+        try:
+            if isinstance(op, ast.Add):
+                return l + r
+            if isinstance(op, ast.Sub):
+                return l - r
+            if isinstance(op, ast.Mult):
+                return l * r
+            if isinstance(op, ast.Div):
+                return l / r
+            if isinstance(op, ast.FloorDiv):
+                return l // r
+            if isinstance(op, ast.Mod):
+                return l % r
+            if isinstance(op, ast.Pow):
+                if isinstance(r, Fraction) and r.denominator == 1:
+                    r = int(r)
+                if isinstance(r, Fraction):
+                    self.err("non-integer power", node)
+                return l ** r
+        except ZeroDivisionError:
+            self.err("division by zero", node)
+        self.err(f"operator {type(op).__name__} on numbers", node)
+
+    def _binop(self, op, l, r, node):
+        if _is_num(l) and _is_num(r):
+            return self._num_binop(op, l, r, node)
+        if isinstance(op, ast.Add):
+            if isinstance(l, str) and isinstance(r, str):
+                return l + r
+            if isinstance(l, list) and isinstance(r, list):
+                return l + r
+            if isinstance(l, tuple) and isinstance(r, tuple):
+                return l + r
+        if isinstance(op, ast.Mod) and isinstance(l, str):
+            args = r if isinstance(r, tuple) else (r,)
+            return l % tuple(self._fmt_arg(a) for a in args)
+        if isinstance(op, ast.Mult):
+            if isinstance(l, (str, list, tuple)) and isinstance(r, int):
+                return l * r
+            if isinstance(r, (str, list, tuple)) and isinstance(l, int):
+                return r * l
+            # <number | prefix> * unit -> quantity; number * quantity
+            for a, b in ((l, r), (r, l)):
+                f = None
+                if isinstance(a, Prefix):
+                    f = Fraction(10) ** a.exp
+                elif _is_num(a):
+                    f = _exact(a)
+                if f is not None:
+                    if isinstance(b, CUnit):
+                        return CQty(f, b)
+                    if isinstance(b, CQty):
+                        return CQty(f * b.amount, b.unit)
+            # class algebra
+            if isinstance(l, (CType, CClassTerm)) and isinstance(r, (CType, CClassTerm)):
+                return CClassTerm(self._merge(self._cls_items(l) + self._cls_items(r)))
+        if isinstance(op, ast.Div):
+            if isinstance(l, (CType, CClassTerm)) and isinstance(r, (CType, CClassTerm)):
+                return CClassTerm(self._merge(self._cls_items(l) + [(t, -e) for t, e in self._cls_items(r)]))
+            if isinstance(l, CQty) and _is_num(r):
+                return CQty(l.amount / _exact(r), l.unit)
+            if isinstance(l, CUnit) and _is_num(r):
+                return CQty(1 / _exact(r), l)
+        if isinstance(op, ast.Pow) and isinstance(l, (CType, CClassTerm)) and _is_num(r):
+            k = _exact(r)
+            if k.denominator != 1:
+                self.err("non-integer exponent in the class algebra", node)
+            return CClassTerm([(t, e * int(k)) for t, e in self._cls_items(l)])
+        self.err(f"operation {type(op).__name__} on {l!r} and {r!r} outside the catalogue language", node)
+
+    @staticmethod
+    def _cls_items(v):
+        return [(v, 1)] if isinstance(v, CType) else list(v.items)
+
+    def _e_BoolOp(self, n, env):
+        v = None
+        for e in n.values:
+            v = self._eval(e, env)
+            if isinstance(n.op, ast.And) and not self._truth(v):
+                return v
+            if isinstance(n.op, ast.Or) and self._truth(v):
+                return v
+        return v
+
+    def _e_IfExp(self, n, env):
+        return self._eval(n.body if self._truth(self._eval(n.test, env)) else n.orelse, env)
+
+    def _e_Compare(self, n, env):
+        l = self._eval(n.left, env)
+        for op, rn in zip(n.ops, n.comparators):
+            r = self._eval(rn, env)
+            if isinstance(op, (ast.Is, ast.IsNot)):
+                same = l is r or (l is None and r is None) or (isinstance(l, bool) and isinstance(r, bool) and l == r)
+                ok = same if isinstance(op, ast.Is) else not same
+            elif isinstance(op, (ast.In, ast.NotIn)):
+                try:
+                    hit = l in r
+                except TypeError:
+                    self.err("membership test", n)
+                ok = hit if isinstance(op, ast.In) else not hit
+            else:
+                plain = (str, int, float, Fraction, tuple, list, type(None), bool)
+                if isinstance(l, plain) and isinstance(r, plain):
+                    try:
+                        ok = {ast.Eq: l == r, ast.NotEq: l != r}.get(type(op))
+                        if ok is None:
+                            ok = {ast.Lt: lambda: l < r, ast.LtE: lambda: l <= r, ast.Gt: lambda: l > r,
+                                  ast.GtE: lambda: l >= r}[type(op)]()
+                    except TypeError:
+                        self.err("comparison", n)
+                elif isinstance(op, (ast.Eq, ast.NotEq)):
+                    ok = (l is r) if isinstance(op, ast.Eq) else (l is not r)
+                else:
+                    self.err(f"comparison of {l!r} and {r!r}", n)
+            if not ok:
+                return False
+            l = r
+        return True
+
+    def _fmt_arg(self, v):
+        if isinstance(v, Fraction):
+            return int(v) if v.denominator == 1 else v
+        if isinstance(v, CUnit):
+            return v.symbol
+        if isinstance(v, CType):
+            return v.name
+        return v
+
+    def _text(self, v) -> str:
+        v = self._fmt_arg(v)
+        if isinstance(v, (str, int, float, Fraction, bool, type(None))):
+            return str(v)
+        self.err(f"text form of {v!r}")
+
+    def _e_JoinedStr(self, n, env):
+        out = []
+        for p in n.values:
+            if isinstance(p, ast.Constant):
+                out.append(p.value)
+            else:
+                v = self._fmt_arg(self._eval(p.value, env))
+                spec = self._e_JoinedStr(p.format_spec, env) if p.format_spec is not None else ""
+                if p.conversion == ord("r"):
+                    v = repr(v)
+                elif p.conversion == ord("s"):
+                    v = str(v)
+                if not isinstance(v, (str, int, float, Fraction, bool, type(None))):
+                    self.err(f"text form of {v!r}", p)
+                try:
+                    out.append(format(v, spec))
+                except (TypeError, ValueError):
+                    self.err("format spec", p)
+        return "".join(out)
+
+    def _e_Subscript(self, n, env):
+        obj = self._eval(n.value, env)
+        if isinstance(n.slice, ast.Slice):
+            idx = []
+            for part in (n.slice.lower, n.slice.upper, n.slice.step):
+                v = self._eval(part, env) if part is not None else None
+                idx.append(self._key(v))
+            if isinstance(obj, (str, list, tuple)):
+                return obj[slice(*idx)]
+            self.err(f"slice of {obj!r}", n)
+        key = self._key(self._eval(n.slice, env))
+        if isinstance(obj, (str, list, tuple, dict)):
+            try:
+                return obj[key]
+            except KeyError:
+                raise _PyRaise("KeyError", repr(key))
+            except IndexError:
+                raise _PyRaise("IndexError", repr(key))
+            except TypeError:
+                self.err(f"subscript {key!r} of {src_of(n.value)}", n)
+        if isinstance(obj, CBuiltin):
+            return obj          # typing subscription
+        self.err(f"subscript of {obj!r}", n)
+
+    def _e_Attribute(self, n, env):
+        obj = self._eval(n.value, env)
+        a = n.attr
+        if isinstance(obj, CType):
+            if a == "ref_unit":
+                if obj.ref_unit is None:
+                    self.err(f"{obj.name} has no reference unit", n)
+                return obj.ref_unit
+            if a in ("__name__", "__qualname__"):
+                return obj.name
+            if a == "quantum":
+                return obj.quantum
+            if a in ("new_unit", "derive_unit_from", "register_converter", "units"):
+                return CBound(obj, a)
+        if isinstance(obj, CUnit):
+            if a == "symbol":
+                return obj.symbol
+            if a == "name":
+                return obj.name if obj.name is not None else obj.symbol
+            if a == "qty_cls":
+                return obj.ctype
+        if isinstance(obj, Prefix):
+            if a in ("name", "abbr", "exp"):
+                return getattr(obj, a)
+            if a == "factor":
+                return Fraction(10) ** obj.exp
+        if isinstance(obj, CQty):
+            if a == "amount":
+                return obj.amount
+            if a == "unit":
+                return obj.unit
+        if isinstance(obj, (str, list, dict, tuple)):
+            return CBound(obj, a)
+        if isinstance(obj, CModule):
+            if obj.name in ("os", "xml", "xml.etree") and a in ("path", "etree", "ElementTree"):
+                return CModule(f"{obj.name}.{a}")
+            return CBound(obj, a)
+        if isinstance(obj, XElem):
+            if a == "attrib":
+                return dict(obj.el.attrib)
+            if a == "text":
+                return obj.el.text
+            if a == "tag":
+                return obj.el.tag
+            if a == "tail":
+                return obj.el.tail
+            return CBound(obj, a)
+        if isinstance(obj, XTree):
+            return CBound(obj, a)
+        self.err(f"attribute {a} of {obj!r}", n)
+
+    def _e_ListComp(self, n, env):
+        out = []
+        self._comp2(n, env, lambda e: out.append(self._eval(n.elt, e)))
+        return out
+
+    _e_GeneratorExp = _e_ListComp
+    _e_SetComp = _e_ListComp
+
+    def _e_DictComp(self, n, env):
+        out = {}
+
+        def emit(e):
+            out[self._key(self._eval(n.key, e))] = self._eval(n.value, e)
+        self._comp2(n, env, emit)
+        return out
+
+    def _comp2(self, n, env, emit):
+        def rec(i, e):
+            if i == len(n.generators):
+                emit(e)
+                return
+            g = n.generators[i]
+            for x in self._iter(self._eval(g.iter, e), g.iter):
+                e2 = _Scope(e)
+                self._assign(g.target, x, e2)
+                if all(self._truth(self._eval(c, e2)) for c in g.ifs):
+                    rec(i + 1, e2)
+        rec(0, env)
+
+    def _e_Lambda(self, n, env):
+        return CFunc(n, env, "<lambda>")
+
+    def _e_Starred(self, n, env):
+        self.err("starred expression", n)
+
+    def _e_Call(self, n, env):
+        fn = self._eval(n.func, env)
+        args = self._elts(n.args, env)
+        kwargs = {}
+        for k in n.keywords:
+            if k.arg is None:
+                kwargs.update(self._eval(k.value, env))
+            else:
+                kwargs[k.arg] = self._eval(k.value, env)
+        if isinstance(fn, CFunc):
+            return self._call_func(fn, args, kwargs, n)
+        if isinstance(fn, CBound):
+            return self._call_bound(fn, args, kwargs, n)
+        if isinstance(fn, CBuiltin):
+            return self._call_builtin(fn.name, args, kwargs, n)
+        self.err(f"call of {fn!r}", n)
+
+    def _call_func(self, fn: CFunc, args, kwargs, node=None):
+        a = fn.node.args
+        params = [p.arg for p in a.posonlyargs + a.args]
+        env = _Scope(fn.env)
+        defaults = [None] * (len(params) - len(a.defaults)) + list(a.defaults)
+        if len(args) > len(params) and a.vararg is None:
+            self.err(f"too many arguments for {fn.name}", node)
+        for p, v in zip(params, args):
+            env[p] = v
+        if a.vararg is not None:
+            env[a.vararg.arg] = tuple(args[len(params):])
+        for p, d in zip(params[len(args):], defaults[len(args):]):
+            if p in kwargs:
+                env[p] = kwargs.pop(p)
+            elif d is not None:
+                env[p] = self._eval(d, fn.env)
+            else:
+                self.err(f"missing argument {p} for {fn.name}", node)
+        for p, d in zip(a.kwonlyargs, a.kw_defaults):
+            if p.arg in kwargs:
+                env[p.arg] = kwargs.pop(p.arg)
+            elif d is not None:
+                env[p.arg] = self._eval(d, fn.env)
+            else:
+                self.err(f"missing argument {p.arg} for {fn.name}", node)
+        if kwargs:
+            if a.kwarg is not None:
+                env[a.kwarg.arg] = dict(kwargs)
+            else:
+                self.err(f"unexpected keyword arguments {sorted(kwargs)} for {fn.name}", node)
+        if isinstance(fn.node, ast.Lambda):
+            return self._eval(fn.node.body, env)
+        try:
+            self._exec_block(fn.node.body, env)
+        except _Return as r:
+            return r.v
         return None
 
-    def _value(self, n, st, tgt):
-        # X = T.ref_unit
-        if isinstance(n, ast.Attribute) and n.attr == "ref_unit":
-            t = self.env.get(src_of(n.value))
-            if isinstance(t, CType):
-                if t.ref_unit is None:
-                    raise AnalysisError(f"predefined.py:{st.lineno}: {t.name} has no reference unit")
-                return t.ref_unit
-        if isinstance(n, ast.Name) and n.id in self.env:
-            return self.env[n.id]
-        if isinstance(n, ast.Call) and isinstance(n.func, ast.Attribute):
-            t = self.env.get(src_of(n.func.value))
-            if isinstance(t, CType) and n.func.attr == "new_unit":
-                return self._new_unit(t, n, st)
-            if isinstance(t, CType) and n.func.attr == "derive_unit_from":
-                return self._derive(t, n, st)
-        if isinstance(n, (ast.List, ast.Tuple)):
-            return [self._value(e, st, None) for e in n.elts]
-        try:
-            return self._number(n, st)
-        except AnalysisError:
-            pass
-        raise AnalysisError(f"predefined.py:{st.lineno}: value form outside the catalogue language: {src_of(n)[:100]}")
+    def _call_bound(self, b: CBound, args, kwargs, node):
+        obj, a = b.obj, b.attr
+        if isinstance(obj, CType):
+            if a == "new_unit":
+                return self._new_unit(obj, args, kwargs, node)
+            if a == "derive_unit_from":
+                return self._derive(obj, args, kwargs, node)
+            if a == "register_converter":
+                if len(args) != 1 or not isinstance(args[0], CConverter):
+                    self.err("register_converter with something else than a TableConverter", node)
+                obj.converters.append(args[0].rows)
+                return None
+            if a == "units":
+                return list(obj.units)
+        if isinstance(obj, CModule):
+            return self._call_module(obj.name, a, args, kwargs, node)
+        if isinstance(obj, XTree) and a == "getroot":
+            return XElem(obj.tree.getroot())
+        if isinstance(obj, XElem):
+            if a == "findall":
+                return [XElem(c) for c in obj.el.findall(args[0])]
+            if a == "find":
+                c = obj.el.find(args[0])
+                return None if c is None else XElem(c)
+            if a == "findtext":
+                return obj.el.findtext(args[0], args[1] if len(args) > 1 else None)
+            if a == "get":
+                return obj.el.get(args[0], args[1] if len(args) > 1 else None)
+            if a == "iter":
+                return [XElem(c) for c in obj.el.iter(*args)]
+        if isinstance(obj, str) and a in ("isdigit", "isalpha", "isalnum", "isspace", "isnumeric", "isdecimal"):
+            return getattr(obj, a)()
+        if isinstance(obj, dict) and a == "setdefault":
+            return obj.setdefault(self._key(args[0]), args[1] if len(args) > 1 else None)
+        if isinstance(obj, dict) and a == "update":
+            for src in args:
+                obj.update(src if isinstance(src, dict) else {self._key(k): v for k, v in self._iter(src, node)})
+            obj.update(kwargs)
+            return None
+        if isinstance(obj, str):
+            if a in ("lower", "upper", "capitalize", "title", "strip", "lstrip", "rstrip", "replace", "split",
+                     "startswith", "endswith", "join", "format", "zfill", "center", "ljust", "rjust", "rsplit",
+                     "partition", "removeprefix", "removesuffix", "casefold", "swapcase", "isupper", "islower"):
+                try:
+                    if a == "join":
+                        return obj.join(self._text(x) for x in self._iter(args[0], node))
+                    if a == "format":
+                        return obj.format(*[self._fmt_arg(x) for x in args],
+                                          **{k: self._fmt_arg(v) for k, v in kwargs.items()})
+                    r = getattr(obj, a)(*[self._key(x) for x in args])
+                    return list(r) if a in ("split", "rsplit") else r
+                except (TypeError, ValueError, IndexError, KeyError):
+                    self.err(f"str.{a}", node)
+        if isinstance(obj, list):
+            if a == "append":
+                obj.append(args[0])
+                return None
+            if a == "extend":
+                obj.extend(self._iter(args[0], node))
+                return None
+            if a == "index":
+                try:
+                    return obj.index(args[0])
+                except ValueError:
+                    self.err("list.index", node)
+        if isinstance(obj, dict):
+            if a == "items":
+                return [tuple(kv) for kv in obj.items()]
+            if a == "keys":
+                return list(obj.keys())
+            if a == "values":
+                return list(obj.values())
+            if a == "get":
+                return obj.get(self._key(args[0]), args[1] if len(args) > 1 else None)
+        self.err(f"method {a} of {obj!r} outside the catalogue language", node)
 
-    def _new_unit(self, t: CType, n: ast.Call, st) -> CUnit:
-        args = list(n.args)
-        kw = {k.arg: k.value for k in n.keywords}
-        sym = self._const(args[0] if args else kw["symbol"], st)
-        name = self._const(args[1], st) if len(args) > 1 else (self._const(kw["name"], st) if "name" in kw else None)
-        d = args[2] if len(args) > 2 else kw.get("define_as")
-        if d is None:
-            u = CUnit(t, sym, name, None, "base", st.lineno)
-        elif isinstance(d, ast.Call) and src_of(d.func) == "Term":
-            items = self._term_items(d, st)
+    def _call_module(self, mod, a, args, kwargs, node):
+        import posixpath
+        if mod == "os.path":
+            if a == "join" and all(isinstance(x, str) for x in args):
+                return posixpath.join(*args)
+            if a == "dirname" and isinstance(args[0], str):
+                return posixpath.dirname(args[0])
+            if a == "basename" and isinstance(args[0], str):
+                return posixpath.basename(args[0])
+            if a == "abspath" and isinstance(args[0], str):
+                return args[0]
+        if mod.endswith("ElementTree") and a == "parse" and isinstance(args[0], str):
+            from xml.etree import ElementTree
+            path = args[0]
+            root = getattr(self, "data_root", None)
+            if root is None or not posixpath.normpath(path).startswith(posixpath.normpath(root)):
+                self.err(f"data file outside the repository: {path}", node)
+            try:
+                return XTree(ElementTree.parse(path))       # a data file, read by the checker's own parser
+            except (OSError, ElementTree.ParseError) as e:
+                raise AnalysisError(f"data file {path}: {e}")
+        self.err(f"call of {mod}.{a} outside the catalogue language", node)
+
+    def _call_builtin(self, name, args, kwargs, node):
+        if name in ("Decimal", "Fraction"):
+            if not args:
+                return Fraction(0)
+            if name == "Decimal" and len(args) == 2 and _is_num(args[0]):
+                self.err("Decimal with a precision", node)
+            if len(args) == 2 and name == "Fraction" and all(_is_num(a) for a in args):
+                return _exact(args[0]) / _exact(args[1])
+            a = args[0]
+            if isinstance(a, str):
+                try:
+                    return Fraction(a.strip())
+                except (ValueError, ZeroDivisionError):
+                    self.err(f"{name}({a!r})", node)
+            if _is_num(a):
+                return _exact(a)
+            self.err(f"{name} of {a!r}", node)
+        if name == "Term":
+            if len(args) != 1:
+                self.err("Term literal expected", node)
+            items = []
+            for it in self._iter(args[0], node):
+                it = list(self._iter(it, node)) if isinstance(it, (tuple, list)) else None
+                if it is None or len(it) != 2 or not _is_num(it[1]) or _exact(it[1]).denominator != 1:
+                    self.err("term item form", node)
+                el = it[0]
+                if not (isinstance(el, CUnit) or _is_num(el)):
+                    self.err(f"term item is not a known unit: {el!r}", node)
+                items.append((el, int(_exact(it[1]))))
+            return CTerm(items)
+        if name == "TableConverter":
+            rows = []
+            src = args[0] if args else kwargs.get("conv_table")
+            if isinstance(src, dict):
+                src = [tuple(k) + tuple(v) for k, v in src.items()]
+            for r in self._iter(src, node):
+                r = list(self._iter(r, node))
+                rows.append([_exact(x) if _is_num(x) else x for x in r])
+            return CConverter(rows)
+        if name == "len":
+            if isinstance(args[0], XElem):
+                return len(args[0].el)
+            return len(args[0]) if isinstance(args[0], (str, list, tuple, dict)) else self.err("len", node)
+        if name == "iter":
+            return list(self._iter(args[0], node))
+        if name == "range":
+            return list(range(*[self._key(a) for a in args]))
+        if name == "zip":
+            return [tuple(t) for t in zip(*[self._iter(a, node) for a in args])]
+        if name == "enumerate":
+            start = self._key(args[1]) if len(args) > 1 else self._key(kwargs.get("start", 0))
+            return [(i, x) for i, x in enumerate(self._iter(args[0], node), start)]
+        if name == "str":
+            return self._text(args[0]) if args else ""
+        if name == "repr":
+            return repr(self._fmt_arg(args[0]))
+        if name == "int":
+            a = args[0]
+            if isinstance(a, str):
+                try:
+                    return int(a)
+                except ValueError:
+                    raise _PyRaise("ValueError", f"int({a!r})")
+            if _is_num(a):
+                return int(a)
+        if name == "float":
+            if _is_num(args[0]):
+                return float(args[0])
+        if name == "bool":
+            return self._truth(args[0]) if args else False
+        if name in ("tuple", "list", "set"):
+            seq = self._iter(args[0], node) if args else []
+            return tuple(seq) if name == "tuple" else list(seq)
+        if name == "dict":
+            d = dict(kwargs)
+            if args:
+                src = args[0]
+                d.update(src if isinstance(src, dict) else {self._key(k): v for k, v in self._iter(src, node)})
+            return d
+        if name in ("sorted", "reversed"):
+            seq = self._iter(args[0], node)
+            if name == "reversed":
+                return list(reversed(seq))
+            key = kwargs.get("key")
+            try:
+                kf = (lambda x: self._call_func(key, [x], {}, node)) if isinstance(key, CFunc) else None
+                return sorted(seq, key=kf, reverse=bool(kwargs.get("reverse")))
+            except TypeError:
+                self.err("sorted()", node)
+        if name == "isinstance":
+            return False
+        if name in ("sum", "min", "max"):
+            seq = self._iter(args[0], node) if len(args) == 1 else list(args)
+            if all(_is_num(x) for x in seq) and (seq or name == "sum"):
+                return {"sum": sum, "min": min, "max": max}[name](seq)
+        if name == "abs" and _is_num(args[0]):
+            return abs(args[0])
+        if name in ("any", "all"):
+            vals = [self._truth(x) for x in self._iter(args[0], node)]
+            return any(vals) if name == "any" else all(vals)
+        if name == "map" and isinstance(args[0], (CFunc, CBuiltin)) and len(args) >= 2:
+            seqs = [self._iter(a, node) for a in args[1:]]
+            out = []
+            for t in zip(*seqs):
+                out.append(self._call_func(args[0], list(t), {}, node) if isinstance(args[0], CFunc)
+                           else self._call_builtin(args[0].name, list(t), {}, node))
+            return out
+        if name == "filter" and len(args) == 2:
+            seq = self._iter(args[1], node)
+            if args[0] is None:
+                return [x for x in seq if self._truth(x)]
+            if isinstance(args[0], CFunc):
+                return [x for x in seq if self._truth(self._call_func(args[0], [x], {}, node))]
+        if name == "print":
+            return None
+        if name == "SIPrefix":
+            vals = list(args)
+            names = ["name", "abbr", "exp"]
+            d = dict(zip(names, vals))
+            d.update(kwargs)
+            exp = d.get("exp")
+            if isinstance(exp, Fraction) and exp.denominator == 1:
+                exp = int(exp)
+            return Prefix(None, d.get("name"), d.get("abbr"), exp)
+        self.err(f"call of {name} outside the catalogue language", node)
+
+    # ------------------------------------------------------------ the checker's semantics of declarations
+    def _new_unit(self, t: CType, args, kwargs, node) -> CUnit:
+        names = ["symbol", "name", "define_as"]
+        d = dict(zip(names, args))
+        for k, v in kwargs.items():
+            if k not in names or k in d:
+                self.err(f"new_unit argument {k}", node)
+            d[k] = v
+        sym, name, df = d.get("symbol"), d.get("name"), d.get("define_as")
+        if not isinstance(sym, str):
+            self.err("new_unit symbol is not text", node)
+        if name is not None and not isinstance(name, str):
+            self.err("new_unit name is not text", node)
+        lineno = getattr(self.cur, "lineno", getattr(node, "lineno", 0))
+        if isinstance(df, CUnit):
+            df = CQty(Fraction(1), df)
+        if df is None:
+            u = CUnit(t, sym, name, None, "base", lineno)
+        elif isinstance(df, CTerm):
             scale = Fraction(1)
             dims: Dict[str, int] = {}
-            for uu, e in items:
-                if uu.scale is None:
-                    raise AnalysisError(f"predefined.py:{st.lineno}: term over a unit without scale")
-                scale *= uu.scale ** e
-                for k, v in uu.ctype.dims().items():
+            for el, e in df.items:
+                if _is_num(el):
+                    scale *= _exact(el) ** e
+                    continue
+                if el.scale is None:
+                    self.err("term over a unit without scale", node)
+                scale *= el.scale ** e
+                for k, v in el.ctype.dims().items():
                     dims[k] = dims.get(k, 0) + v * e
             dims = {k: v for k, v in dims.items() if v}
-            u = CUnit(t, sym, name, scale, "term", st.lineno,
-                      definition_text=term_symbol([(uu.symbol, e) for uu, e in items]))
+            u = CUnit(t, sym, name, scale, "term", lineno,
+                      definition_text=term_symbol([(el.symbol if isinstance(el, CUnit) else str(el), e)
+                                                   for el, e in df.items]))
             u.def_dims = dims
-        else:
-            f, base = self._scaled(d, st)
+        elif isinstance(df, CQty):
+            f, base = df.amount, df.unit
             if base.scale is None:
-                raise AnalysisError(f"predefined.py:{st.lineno}: scaled definition over a unit without scale")
-            u = CUnit(t, sym, name, f * base.scale, "scaled", st.lineno, definition_text=f"{f}·{base.symbol}")
+                self.err("scaled definition over a unit without scale", node)
+            u = CUnit(t, sym, name, f * base.scale, "scaled", lineno, definition_text=f"{f}·{base.symbol}")
             u.def_dims = base.ctype.dims()
             u.def_type = base.ctype
             u.factor = f
             u.base = base
+        else:
+            self.err(f"definition is not <number> * <unit> or a Term: {df!r}", node)
         t.units.append(u)
         self.units.append(u)
         return u
 
-    def _term_items(self, d: ast.Call, st) -> List[Tuple[CUnit, int]]:
-        if len(d.args) != 1 or not isinstance(d.args[0], (ast.Tuple, ast.List)):
-            raise AnalysisError(f"predefined.py:{st.lineno}: Term literal expected")
-        out = []
-        for it in d.args[0].elts:
-            if not isinstance(it, ast.Tuple) or len(it.elts) != 2:
-                raise AnalysisError(f"predefined.py:{st.lineno}: term item form")
-            u = self._unit_ref(it.elts[0])
-            if u is None:
-                raise AnalysisError(f"predefined.py:{st.lineno}: term item is not a known unit: {src_of(it.elts[0])}")
-            e = self._number(it.elts[1], st)
-            out.append((u, int(e)))
-        return out
-
-    def _derive(self, t: CType, n: ast.Call, st) -> CUnit:
+    def _derive(self, t: CType, args, kwargs, node) -> CUnit:
         if not t.definition:
-            raise AnalysisError(f"predefined.py:{st.lineno}: derive_unit_from on a base type")
-        kw = {k.arg: k.value for k in n.keywords}
+            self.err("derive_unit_from on a base type", node)
         us = []
-        for a in n.args:
-            u = self._unit_ref(a)
-            if u is None:
-                raise AnalysisError(f"predefined.py:{st.lineno}: derive_unit_from argument is not a unit: {src_of(a)}")
-            us.append(u)
+        for a in args:
+            if not isinstance(a, CUnit):
+                self.err(f"derive_unit_from argument is not a unit: {a!r}", node)
+            us.append(a)
         if len(us) != len(t.definition):
-            raise AnalysisError(f"predefined.py:{st.lineno}: {len(us)} units for {len(t.definition)} base types")
+            self.err(f"{len(us)} units for {len(t.definition)} base types", node)
         scale = Fraction(1)
         mism = []
         for (bt, e), u in zip(t.definition, us):
             if u.ctype is not bt:
                 mism.append((bt.name, u.symbol))
             if u.scale is None:
-                raise AnalysisError(f"predefined.py:{st.lineno}: derived from a unit without scale")
+                self.err("derived from a unit without scale", node)
             scale *= u.scale ** e
-        sym = self._const(kw["symbol"], st) if "symbol" in kw else \
-            term_symbol([(u.symbol, e) for (bt, e), u in zip(t.definition, us)])
-        name = self._const(kw["name"], st) if "name" in kw else None
-        u = CUnit(t, sym, name, scale, "derived", st.lineno,
+        sym = kwargs.get("symbol") or term_symbol([(u.symbol, e) for (bt, e), u in zip(t.definition, us)])
+        name = kwargs.get("name")
+        lineno = getattr(self.cur, "lineno", getattr(node, "lineno", 0))
+        u = CUnit(t, sym, name, scale, "derived", lineno,
                   definition_text=term_symbol([(u.symbol, e) for (bt, e), u in zip(t.definition, us)]))
         u.mismatch = mism
         u.def_dims = t.dims()
         t.units.append(u)
         self.units.append(u)
         return u
+
+
+class ModuleFold(Catalogue):
+    """Folds the module-level code of a data-loading module (money/currencies.py) over concrete values; its
+    functions can then be applied to concrete arguments."""
+
+    def __init__(self, prog: Program, modname: str):
+        from .loader import repo_root
+        self.prog = prog
+        self.prefixes, self.types, self.units = {}, {}, []
+        self.statements = 0
+        self.doc = ""
+        self.bind_imports = True
+        self.data_root = repo_root()
+        m = prog.modules.get(modname)
+        if m is None:
+            raise AnalysisError(f"module {modname} missing")
+        self.module = m
+        self.file = m.rel()
+        self.env = {"__file__": m.path, "__name__": modname}
+        self.cur = None
+        for st in m.tree.body:
+            self.statements += 1
+            self.cur = st
+            if isinstance(st, ast.ClassDef):
+                self.err(f"class statement in a data module: {st.name}", st)
+            try:
+                self._exec(st, self.env, top=True)
+            except _PyRaise as ex:
+                self.err(f"the statement raises {ex.name}: {ex.msg}", st)
+
+    def apply(self, fname: str, *args):
+        """-> ("return", value) | ("raise", exception name)"""
+        fn = self.env.get(fname)
+        if not isinstance(fn, CFunc):
+            raise AnalysisError(f"anchor vanished: function {fname} of {self.file}")
+        try:
+            return "return", self._call_func(fn, list(args), {})
+        except _PyRaise as ex:
+            return "raise", ex.name
+
+
+class _Scope(dict):
+    """A local scope chained to its enclosing one."""
+
+    def __init__(self, parent):
+        super().__init__()
+        self["__parent__"] = parent
 
 
 # ---------------------------------------------------------------- documentation tables
